@@ -726,3 +726,43 @@ func init() {
 		},
 	})
 }
+
+// ruleHistoryIndependence (shared): the functions reachable from the given entry points keep no
+// package-level mutable state and use no lock/atomic/goroutine — a necessary condition of every
+// "for all inputs" property (the answer must not depend on earlier calls).
+func ruleHistoryIndependence(c *Check, w *World, tb *TB, ef *Effects, rule string, entries ...*ssa.Function) {
+	var roots []*ssa.Function
+	for _, e := range entries {
+		if e != nil {
+			roots = append(roots, e)
+		}
+	}
+	reach := w.Reachable(roots...)
+	var fns []*ssa.Function
+	for f := range reach {
+		if f.Blocks != nil && w.InModule(f) {
+			fns = append(fns, f)
+		}
+	}
+	sortFuncs(fns)
+	ruleNoPkgState(c, w, tb, ef, rule, fns)
+	ruleNoConcurrencyPrimitives(c, w, rule, fns)
+}
+
+func sortFuncs(fns []*ssa.Function) {
+	for i := 1; i < len(fns); i++ {
+		for j := i; j > 0 && fns[j].String() < fns[j-1].String(); j-- {
+			fns[j], fns[j-1] = fns[j-1], fns[j]
+		}
+	}
+}
+
+func (w *World) Funcs(pkg string, names ...string) []*ssa.Function {
+	var out []*ssa.Function
+	for _, n := range names {
+		if f := w.Func(pkg, n); f != nil {
+			out = append(out, f)
+		}
+	}
+	return out
+}
